@@ -15,7 +15,8 @@ from predchecks import strip
 
 def dsir_req(c, G, idx, li, infs, recs, impl_inftime=None):
     rq = dict(op="dsir", n=c["n"], adj=gen.adj_lists(G, idx), tmin=c["tmin"], tmax=c["tmax"], infs=infs, recs=recs,
-              contacts=[[li[u], li[v]] for u, v in c["contacts"]])
+              contacts=[[li[u], li[v]] for u, v in c["contacts"]],
+              sched=[[li[u], li[v], bs] for u, v, bs in c.get("sched") or []])
     if c.get("recsteps") is not None:
         r = [1] * c["n"]
         for i, k in enumerate(c["recsteps"]):
@@ -24,6 +25,51 @@ def dsir_req(c, G, idx, li, infs, recs, impl_inftime=None):
     if impl_inftime is not None:
         rq["impl_inftime"] = impl_inftime
     return rq
+
+
+def generation_rule(c, full, G, idx):
+    """the pathwise generation rule (Lean `Discrete.step_newInf`) read off the implementation's own node histories:
+    a node susceptible at step t is infected at t+1 iff some neighbour that is infectious at step t makes a successful
+    contact at that step (for a stateful rule: at its current ask)."""
+    li = full["lab_index"]
+    tmin = F(c["tmin"])
+    tmax = None if c["tmax"] == "inf" else F(c["tmax"])
+    n = c["n"]
+    tI, tR = [None] * n, [None] * n
+    for v, h in enumerate(full["history"]):
+        for t, s in h:
+            if s == "I" and tI[v] is None:
+                tI[v] = F(t)
+            if s == "R" and tR[v] is None:
+                tR[v] = F(t)
+    sched = {(li[u], li[v]): bs for u, v, bs in c.get("sched") or []}
+    contacts = {(li[u], li[v]) for u, v in c["contacts"]}
+    nodes = list(G)
+    succ = {idx[u]: [idx[v] for v in (G.successors(u) if G.is_directed() else G.neighbors(u))] for u in nodes}
+
+    def rule(a, u, v):
+        if (u, v) in sched:
+            bs = sched[(u, v)]
+            return bs[min(a, len(bs) - 1)]
+        return (u, v) in contacts
+    last = max([F(t) for h in full["history"] for t, _ in h])
+    bad = []
+    t = tmin
+    while t < last + 1 and (tmax is None or t + 1 <= tmax):
+        inf = [u for u in range(n) if tI[u] is not None and tI[u] <= t and (tR[u] is None or tR[u] > t)]
+        if not inf:
+            break
+        for v in range(n):
+            if (tI[v] is not None and tI[v] <= t) or (tR[v] is not None and tR[v] <= t):
+                continue            # not susceptible at step t
+            want = any(v in succ[u] and rule(int(t - tI[u]), u, v) for u in inf)
+            got = tI[v] == t + 1
+            if want != got:
+                bad.append("node %d at step %s: %s by an infectious neighbour, but %s at %s" %
+                           (v, t, "successfully contacted" if want else "not successfully contacted",
+                            "infected" if got else "not infected", t + 1))
+        t += 1
+    return bad
 
 
 def deterministic(ctx, drv):
@@ -46,15 +92,25 @@ def deterministic(ctx, drv):
         # infection steps from the transmission list: contact at step t => 'I' at t+1
         inft = [[v, str(F(t) + 1)] for t, u, v in full["transmissions"] if u is not None]
         reqs.append(dsir_req(c, G, idx, li, infs, recs, inft))
-        metas.append((rep, full, plain, c))
-        ctx.count("discrete_SIR:%s" % ("recovery-rule" if c["recsteps"] else "default-recovery"))
-    for (rep, full, plain, c), m in zip(metas, drv.batch(reqs)):
+        metas.append((rep, full, plain, c, G, idx))
+        ctx.count("discrete_SIR:%s%s" % ("recovery-rule" if c["recsteps"] else "default-recovery", "+stateful-transmission" if c.get("sched") else ""))
+    for (rep, full, plain, c, G, idx), m in zip(metas, drv.batch(reqs)):
         ctx.traces += 1
         ctx.case(rep, nontrivial=len(plain["times"]) > 1, sample=dict(rep, arrays=plain["times"][:5]))
         if not m.get("ok"):
             ctx.disagreement("dsir-driver", dict(rep, model=m))
             continue
-        if m["isBFS"] is not True:
+        bad = generation_rule(c, full, G, idx)
+        if bad:
+            ctx.violation("discrete_SIR: " + bad[0], dict(rep, history=full["history"], problems=bad[:5]))
+            continue
+        # infection steps agree with the model's (for stateful rules this is the whole check; BFS distance is only
+        # defined for stateless ones)
+        if sorted([v, str(F(t))] for v, t in m["inftime"]) != sorted([v, str(F(t))] for v, t in
+                                                                      ([v, F(t) + 1] for t, u, v in full["transmissions"] if u is not None)):
+            ctx.disagreement("dsir-inftime", dict(rep, transmissions=full["transmissions"], model=m["inftime"]))
+            continue
+        if not c.get("sched") and m["isBFS"] is not True:
             ctx.violation("discrete_SIR infection steps are not tmin + BFS distance in the successful-contact digraph",
                           dict(rep, transmissions=full["transmissions"], bfs=m["bfs"]))
             continue
